@@ -89,6 +89,7 @@ class Pool:
         else:
             raise ValueError(kind)
         self.third = [ufl.Argument(S, 2)]
+        self.fourth = [ufl.Argument(S, 3)]
 
 
 class Gen:
@@ -247,7 +248,11 @@ class Gen:
         if arity >= 2:
             fac.append(self.lin_s(P.trial, d))
         if arity >= 3:
-            fac.append(self.lin_s(P.third, 0))
+            t = self.lin_s(P.third, r.randrange(2))
+            fac.append(ufl.conj(t) if r.random() < 0.25 else t)   # a conjugated argument number >= 2 is an error
+        if arity >= 4:
+            t = self.lin_s(P.fourth, 0)
+            fac.append(ufl.conj(t) if r.random() < 0.25 else t)
         if not fac:
             fac = [self.coef_s(1)]
         r.shuffle(fac)
@@ -304,7 +309,7 @@ class Gen:
         r = self.rng
         self.P = Pool(self.pick(["ss", "ss", "vv", "vv", "sv", "vs", "parts"]))
         cm = r.random() < 0.5
-        arity = self.pick([0, 1, 1, 2, 2, 2, 2, 3])
+        arity = self.pick([0, 1, 1, 2, 2, 2, 2, 3, 3, 4])
         d = self.pick([0, 1, 1, 2, 2, 3])
         nt = self.pick([1, 1, 2, 3])
         e = self.term(arity, cm, d)
@@ -319,7 +324,7 @@ class Gen:
         if q < 0.06 and args:
             args = args[:-1]                                  # form declares fewer arguments
         elif q < 0.12:
-            extra = [a for a in self.P.test + self.P.trial if a not in args]
+            extra = [a for a in self.P.test + self.P.trial + self.P.third if a not in args]
             if extra:
                 args = sorted(args + [extra[0]], key=arg_id)   # form declares more arguments
         return e, args, cm
@@ -382,4 +387,57 @@ def probes():
     out.append(("missing_arg", f * v, [v, u], False))
     out.append(("extra_arg", f * u * v, [v], False))
     out.append(("no_arg_declared", f * f, [v], False))
+    return out
+
+
+def small_scope(tier):
+    """Exhaustive small-scope stream: every binary node type (and the two-branch conditional, the
+    two-component list tensor, inner/dot/outer) applied to every ORDERED pair of operand kinds
+    (zero, literal, coefficient, test/trial/third argument, their conjugates, products of them), in real
+    and complex mode.  Handler rules that are asymmetric in their operands or that treat Zero / empty /
+    conjugated / higher-numbered arguments specially fire only on such specific operand pairs."""
+    S = uflgen.space(())
+    V = uflgen.space((2,))
+    v, u, w = ufl.Argument(S, 0), ufl.Argument(S, 1), ufl.Argument(S, 2)
+    vv, uu, ww = ufl.Argument(V, 0), ufl.Argument(V, 1), ufl.Argument(V, 2)
+    f, h, g = ufl.Coefficient(S), ufl.Coefficient(S), ufl.Coefficient(V)
+    zero = ufl.classes.Zero()
+    cnd = ufl.lt(h, 0.5)
+    skinds = [("0", zero), ("lit", ufl.as_ufl(2)), ("f", f), ("v", v), ("u", u), ("cv", ufl.conj(v)),
+              ("w", w), ("cw", ufl.conj(w)), ("ucv", u * ufl.conj(v)), ("uv", u * v)]
+    if tier == "thorough":
+        skinds += [("fv", f * v), ("cu", ufl.conj(u)), ("uwcv", u * w * ufl.conj(v)), ("gradv", ufl.grad(v)[0])]
+    i = ufl.Index()
+    sops = [
+        ("sum", lambda a, b: a + b), ("prod", lambda a, b: a * b), ("div", lambda a, b: a / b),
+        ("cond", lambda a, b: ufl.conditional(cnd, a, b)),
+        ("lt", lambda a, b: ufl.as_vector([a, b])[i] * g[i]),
+        ("max", lambda a, b: ufl.max_value(a, b)), ("pow", lambda a, b: a ** b),
+        ("condarg", lambda a, b: ufl.conditional(ufl.gt(a, h), b, b)),
+        ("prod_u", lambda a, b: u * ufl.conditional(cnd, a, b)),
+    ]
+    vkinds = [("g", g), ("vv", vv), ("uu", uu), ("cvv", ufl.conj(vv)), ("ww", ww), ("cww", ufl.conj(ww)),
+              ("lt_v0", ufl.as_vector([v, 0])), ("lt_vf", ufl.as_vector([v, f])), ("lt_uv", ufl.as_vector([u, v]))]
+    vops = [("inner", lambda a, b: ufl.inner(a, b)), ("dot", lambda a, b: ufl.dot(a, b)),
+            ("outer", lambda a, b: ufl.outer(a, b)[0, 1]),
+            ("vcond", lambda a, b: ufl.inner(ufl.conditional(cnd, a, b), g)),
+            ("vsum", lambda a, b: ufl.inner(g, a + b))]
+    out, seen = [], set()
+    for ops, kinds in ((sops, skinds), (vops, vkinds)):
+        for on, op in ops:
+            for an, a in kinds:
+                for bn, b in kinds:
+                    try:
+                        e = op(a, b)
+                    except Exception:
+                        continue
+                    if not isinstance(e, ufl.classes.Expr):
+                        continue
+                    args = arguments_of(e)
+                    for cm in (False, True):
+                        key = (str(e), cm)
+                        if key in seen:
+                            continue
+                        seen.add(key)
+                        out.append((f"{on}_{an}_{bn}", e, args, cm))
     return out
